@@ -237,6 +237,7 @@ def generate(unit, repo, vacuity=False, falsify=False):
                 text, r = A.n3_fields(text, spec.mut_fields); norms += r
             text, r = A.n6_enumerate(text); norms += r
             text, r = A.n18_continue(text); norms += r
+            text, r = A.n22_while_let(text); norms += r
             if spec.n4:
                 text, r = A.n4_unwrap_or_else(text); norms += r
                 text, r = A.n4b_ok_and_then(text); norms += r
